@@ -48,7 +48,7 @@ def main(tier, seed, args):
                   'outside': 'JSON layer of on_htlc_accepted; panics inside library code summarised by contracts'}
     rep.assumptions = ['single HTLC amount <= money supply', 'node + tokio contracts', 'timers eventually fire (quiescent states have no armed timer)']
     rep.trusted = ['mirsym', 'z3', 'node model', 'tokio contracts']
-    budget = 80 if tier == 'quick' else 1200
+    budget = 400 if tier == 'quick' else 3000
     mons = lambda *extra: [NoPanicNoHang(), ExactlyOne()] + list(extra)
     configs = []
     cfg, pc = cfg_symbolic(2)
